@@ -36,6 +36,24 @@ CLAIMED = {
             "the loader opens only the published path. Decides the shape that makes every interleaving and kill point "
             "safe.",
             "Trusted: rename(2) atomicity in one directory; compiler writes only its -o argument.", "C18"),
+    "C02": ("sympy normal forms (log-derivative identity) of Dispersion._weights + AST mask/plumbing rules",
+            "Static: each distribution's weight expression has the same d/dx log as the documented density (proportional "
+            "for every x, centre, sigma); support widths; inclusive limit masks in all 7 classes with weights computed "
+            "from the masked values; centre/width resolution; unit sum; relative_pd plumbing through 3 interfaces.",
+            "Trusted: numpy elementwise semantics; symbols positive. Not decided: finiteness/monotonicity of the numbers.", "C02"),
+    "C03": ("AST role inference for sibling-argument contradictions, signature binding, post-dominance, linearity typing",
+            "Static: callees sharing same-meaning formals receive the same actuals; every resolved library call binds; "
+            "pinhole normalisation post-dominates truncation; n-sigma window agreement; positive-q ordering; apply is "
+            "linear; background added after smearing; one common index.",
+            "Trusted: numpy linear operators. Not decided: numeric row sums of the slit matrices, zero-width identity.", "C03"),
+    "C04": ("sympy normal-form comparison of resolution formulas read from the AST",
+            "Static: erf argument, bin edges, (2.5,3) window and masks, slit u-substitution limits/prefactors/trip count, "
+            "2-D ring mass and polar rotation equal the documented expressions as rational/trig normal forms.",
+            "Formula agreement only. Not decided: convergence, rate, error bounds (numerical analysis).", "C04"),
+    "C19": ("sympy normal forms through in-place NumPy updates + linearity typing",
+            "Static: H = J0(q xi) q dq/2pi and H0 = q dq/2pi share one weight vector; apply = H.I - H0.I is linear; log grid "
+            "with ratio > 1; acceptance mask polarity; background forced to 0 for SESANS; constructor binding.",
+            "Not decided: quadrature accuracy against known Hankel pairs.", "C19"),
 }
 
 NOT_APPLICABLE = {
